@@ -169,21 +169,50 @@ Proof.
               (ok = false -> dead (bdy s') = true)).
   { intros s1 H1 H2. exists s1, true. split; [reflexivity|]. split; [exact H1|].
     split; [split; [rewrite H1; exact Hp | rewrite H1; exact H2] | discriminate]. }
-  destruct c.
-  2,3: apply Hfail; reflexivity.
-  destruct (progress s) as [|p'] eqn:Hpr.
-  - apply Hgood; [simpl; auto | simpl; intros _; reflexivity].
-  - destruct (kind srv).
-    + destruct (Nat.ltb (S p') (List.length (data srv))) eqn:Hlt.
-      * apply Hgood; [simpl; auto | simpl; intros _; reflexivity].
-      * apply Hfail; simpl; auto.
-    + destruct (discard_spec (S p') (S p') {| rest := data srv; dead := false |} (reads s) 0)
-        as (r & evs' & Hd & Hr); try lia.
-      { intros _; reflexivity. }
-      unfold rbind. rewrite Hd. destruct r as [b|].
-      * apply Hgood; [simpl; auto | simpl; apply (Hr b eq_refl)].
-      * apply Hfail; simpl; auto.
-    + apply Hfail; simpl; auto.
+  assert (Hserve : forall knd : skind, exists s' ok,
+     match match progress s with 0 => None | S p0 => Some (S p0) end with
+     | None => Ok ({| progress := progress s; bdy := {| rest := data srv; dead := false |};
+                      reads := reads s; conns := conns';
+                      reqs := reqs s ++ [match progress s with 0 => None | S p0 => Some (S p0) end] |}, true)
+     | Some p =>
+       match knd with
+       | RejectsRange => Ok ({| progress := progress s; bdy := closed; reads := reads s; conns := conns';
+                                reqs := reqs s ++ [match progress s with 0 => None | S p0 => Some (S p0) end] |}, false)
+       | HonoursRange =>
+           if Nat.ltb p (List.length (data srv))
+           then Ok ({| progress := p; bdy := {| rest := skipn p (data srv); dead := false |};
+                       reads := reads s; conns := conns';
+                       reqs := reqs s ++ [match progress s with 0 => None | S p0 => Some (S p0) end] |}, true)
+           else Ok ({| progress := progress s; bdy := closed; reads := reads s; conns := conns';
+                       reqs := reqs s ++ [match progress s with 0 => None | S p0 => Some (S p0) end] |}, false)
+       | IgnoresRange =>
+           do r <- discard p p {| rest := data srv; dead := false |} (reads s);
+           match r with
+           | (Some b, evs') => Ok ({| progress := p; bdy := b; reads := evs'; conns := conns';
+                                      reqs := reqs s ++ [match progress s with 0 => None | S p0 => Some (S p0) end] |}, true)
+           | (None, evs') => Ok ({| progress := p; bdy := closed; reads := evs'; conns := conns';
+                                    reqs := reqs s ++ [match progress s with 0 => None | S p0 => Some (S p0) end] |}, false)
+           end
+       end
+     end = Ok (s', ok) /\ progress s' = progress s /\ Inv s' /\ (ok = false -> dead (bdy s') = true)).
+  { intros knd. destruct (progress s) as [|p'] eqn:Hpr.
+    - apply Hgood; [simpl; auto | simpl; intros _; reflexivity].
+    - destruct knd.
+      + destruct (Nat.ltb (S p') (List.length (data srv))) eqn:Hlt.
+        * apply Hgood; [simpl; auto | simpl; intros _; reflexivity].
+        * apply Hfail; simpl; auto.
+      + destruct (discard_spec (S p') (S p') {| rest := data srv; dead := false |} (reads s) 0)
+          as (r & evs' & Hd & Hr); try lia.
+        { intros _; reflexivity. }
+        unfold rbind. rewrite Hd. destruct r as [b|].
+        * apply Hgood; [simpl; auto | simpl; apply (Hr b eq_refl)].
+        * apply Hfail; simpl; auto.
+      + apply Hfail; simpl; auto. }
+  destruct c as [| | |k0].
+  - exact (Hserve (kind srv)).
+  - apply Hfail; reflexivity.
+  - apply Hfail; reflexivity.
+  - exact (Hserve k0).
 Qed.
 
 (* ---------- the retry loop ------------------------------------------------- *)
@@ -397,21 +426,21 @@ Qed.
 Lemma reset_all_fail srv s :
   Forall failing (reads s) -> 1 <= List.length (reads s) ->
   exists s' ok, reset srv s = Ok (s', ok) /\
-    Forall failing (reads s') /\ List.length (reads s) <= S (List.length (reads s')) /\
-    (progress s <> 0 -> kind srv = IgnoresRange -> dead (bdy s') = true).
+    Forall failing (reads s') /\ List.length (reads s) <= S (List.length (reads s')).
 Proof.
   intros Hall Hlen. unfold reset.
   destruct (next_conn (conns s)) as [c conns'].
-  destruct c; try (eexists _, _; split; [reflexivity|]; simpl; repeat split; auto; fail).
-  destruct (progress s) as [|p'] eqn:Hp.
-  { eexists _, _; split; [reflexivity|]; simpl; repeat split; auto; congruence. }
-  destruct (kind srv) eqn:Hk.
-  - destruct (Nat.ltb _ _); eexists _, _; (split; [reflexivity|]); simpl; repeat split; auto; discriminate.
-  - destruct (discard_all_fail (S p') (S p') (reads s) (data srv)) as (r & evs' & Hd & Hr & Hall' & Hlen'); auto.
-    unfold rbind. rewrite Hd. destruct r as [b|].
-    + eexists _, _; split; [reflexivity|]; simpl; repeat split; auto.
-    + eexists _, _; split; [reflexivity|]; simpl; repeat split; auto.
-  - eexists _, _; split; [reflexivity|]; simpl; repeat split; auto; discriminate.
+  destruct c as [| | |k0]; cbv zeta;
+    try (eexists _, _; split; [reflexivity|]; simpl; repeat split; auto; fail).
+  all: destruct (progress s) as [|p'] eqn:Hp;
+    [eexists _, _; split; [reflexivity|]; simpl; repeat split; auto|].
+  all: match goal with |- context [match ?K with HonoursRange => _ | IgnoresRange => _ | RejectsRange => _ end] =>
+         destruct K end.
+  all: try (destruct (Nat.ltb _ _); eexists _, _; (split; [reflexivity|]); simpl; repeat split; auto; fail).
+  all: try (eexists _, _; split; [reflexivity|]; simpl; repeat split; auto; fail).
+  all: destruct (discard_all_fail (S p') (S p') (reads s) (data srv)) as (r & evs' & Hd & Hr & Hall' & Hlen'); auto;
+    unfold rbind; rewrite Hd; destruct r as [b|];
+    eexists _, _; (split; [reflexivity|]); simpl; repeat split; auto.
 Qed.
 
 Lemma attempts_all_fail srv sched : forall lenp s last,
@@ -430,7 +459,7 @@ Proof.
   { destruct more as [|b m]; [simpl in Hok; discriminate | split; [exact Hok | discriminate]]. }
   destruct Hmore as [Hmore Hne].
   assert (1 <= List.length more) by (destruct more; [congruence | simpl; lia]).
-  destruct (reset_all_fail srv s1) as (s2 & ok & Hr & Hall2 & Hlen2 & _); simpl; auto; try lia.
+  destruct (reset_all_fail srv s1) as (s2 & ok & Hr & Hall2 & Hlen2); simpl; auto; try lia.
   unfold rbind. rewrite Hr. destruct ok; [|eexists _, _; reflexivity].
   apply IH; auto. simpl in Hlen2. lia.
 Qed.
